@@ -221,6 +221,7 @@ func c06Message(c c06Case) []byte {
 func c06One(c c06Case, limit int64) c06Outcome {
 	var o c06Outcome
 	rig := newRig(c.Mode, func(s *smtp.Server) { s.MaxMessageBytes = limit })
+	serverKnobs(rig, fmt.Sprintf("%+v", c))
 	rig.BE.H.Data = func(sess int, r *rec.Reader, st smtp.StatusCollector) error {
 		rs := c.ReadSize
 		if rs < 1 {
